@@ -175,7 +175,7 @@ func caseRank(ad *adapter, ins []InSpec, p int, script string) string {
 			bad++
 		}
 	}
-	return fmt.Sprintf("%02d|%02d|%d|%02d|%s|%s|%04d|%s", len(ins), items, bad, len(script), ad.name, insKey(ins), p, script)
+	return fmt.Sprintf("%d|%02d|%02d|%02d|%s|%s|%04d|%s", bad, len(ins), items, len(script), ad.name, insKey(ins), p, script)
 }
 
 func (c *collector) add(name string, s adStat) {
@@ -310,9 +310,7 @@ func RunInto(o *core.Options, r *core.Report) {
 	// heavy jobs first
 	sort.SliceStable(jobs, func(i, j int) bool { return jobs[i].ad.arity > jobs[j].ad.arity })
 
-	var sampleMu sync.Mutex
-	sampled := map[string]bool{}
-	wantSample := map[string]bool{"storage.NewOrderedCombinedIterator(ObjectMapper)/2": true, "iterator.Merge": true, "storage.NewConditionsFilteredTupleKeyIterator": true, "iterator.Concat": true}
+	fixedSamples(r, ads)
 
 	t0 := time.Now()
 	perAd := map[string]*atomic.Int64{}
@@ -372,20 +370,6 @@ func RunInto(o *core.Options, r *core.Report) {
 						devs.note(signature(ad.name, out.class), func() string { return caseRank(ad, ins2, p2, sc2) },
 							func() (string, Case) { return describe(ad, ins2, p2, sc2, out2) })
 					}
-				}
-				if wantSample[ad.name] && nt && len(key) > 14 && (p == 0 || p == 5) {
-					sampleMu.Lock()
-					if !sampled[ad.name] {
-						sampled[ad.name] = true
-						var tr []string
-						runCase(ad, cur, p, "HNN", &tr)
-						pd := ""
-						if ad.paramDesc != nil {
-							pd = ad.paramDesc(p)
-						}
-						r.Sample(map[string]any{"adapter": ad.name, "inputs": append([]InSpec(nil), cur...), "param": pd, "script": "HNN + epilogue", "observed": tr})
-					}
-					sampleMu.Unlock()
 				}
 			}
 		}
@@ -462,4 +446,37 @@ func Replay(o *core.Options, r *core.Report) bool {
 		return true
 	}
 	return false
+}
+
+// fixedSamples records a few representative cases (inputs, script, observed results) in the evidence.
+func fixedSamples(r *core.Report, ads []*adapter) {
+	in := func(items, term string) InSpec { return InSpec{Items: items, Term: term} }
+	for _, f := range []struct {
+		ad     string
+		ins    []InSpec
+		p      int
+		script string
+	}{
+		{"storage.NewOrderedCombinedIterator(ObjectMapper)/2", []InSpec{in("abb", "done"), in("bc", "err")}, 0, "HNNH"},
+		{"iterator.Merge", []InSpec{in("ab", "done"), in("bc", "done")}, 0, "NHN"},
+		{"storage.NewConditionsFilteredTupleKeyIterator", []InSpec{in("abc", "done")}, 2 + 3*1 + 9*0, "HNH"},
+		{"iterator.Concat", []InSpec{in("ba", "done"), in("c", "err")}, 0, "NNN"},
+	} {
+		for _, ad := range ads {
+			if ad.name != f.ad {
+				continue
+			}
+			var tr []string
+			out := runCase(ad, f.ins, f.p, f.script, &tr)
+			pd := ""
+			if ad.paramDesc != nil {
+				pd = ad.paramDesc(f.p)
+			}
+			r.Sample(map[string]any{"adapter": ad.name, "inputs": f.ins, "param": pd, "script": f.script + " + epilogue (read to end, Stop, Next, Head)", "observed": tr, "deviation": out.class})
+		}
+	}
+	_, _, tr := runStream([]InSpec{in("ab", "done"), in("c", "err")}, 0, "FNDF")
+	r.Sample(map[string]any{"adapter": "iterator.Stream", "messages": []InSpec{in("ab", "done"), in("c", "err")}, "script": "CleanDone, Next, Drain, CleanDone + epilogue (Stop, Next, Head)", "observed": tr})
+	_, _, tr = runFanIn([]string{"IE", "I"}, 0)
+	r.Sample(map[string]any{"adapter": "iterator.FanInIteratorChannels", "channels": []string{"Iter,Err", "Iter"}, "context": "live", "observed": tr})
 }
